@@ -54,7 +54,9 @@ def file_info(filename):
 
 def is_repo_function(f):
     code = getattr(f, "__code__", None)
-    return isinstance(f, types.FunctionType) and code is not None and is_repo_file(code.co_filename)
+    if not isinstance(f, types.FunctionType) or code is None:
+        return False
+    return is_repo_file(code.co_filename) or is_generated_repo_function(f)
 
 
 def _code_key(node):
@@ -130,3 +132,98 @@ def enclosing_class_name(fi, node):
             return None
         p = fi.parents.get(p)
     return None
+
+
+# ------------------------------------------------------------------------------------- exec-generated functions
+_generated_cache = {}
+
+
+class GeneratedInfo:
+    """FileInfo look-alike for a function whose source text was produced at import time by exec()."""
+    def __init__(self, filename, text):
+        self.filename = filename
+        self.text = text
+        self.lines = text.splitlines()
+        self.sha256 = hashlib.sha256(text.encode()).hexdigest()
+        self.tree = ast.parse(text)
+        self.parents = {}
+        for parent in ast.walk(self.tree):
+            for child in ast.iter_child_nodes(parent):
+                self.parents[child] = parent
+
+
+def _code_signature(code):
+    consts = tuple(c for c in code.co_consts if not isinstance(c, types.CodeType))
+    return (code.co_name, code.co_code, consts, code.co_names, code.co_varnames, code.co_argcount, code.co_kwonlyargcount)
+
+
+def generated_sources(module):
+    """Source strings that the module passes to exec() at import: obtained by re-running the module's own
+    source in a scratch namespace with exec() wrapped by a recorder (nothing is copied by hand)."""
+    name = module.__name__
+    if name in _generated_cache:
+        return _generated_cache[name]
+    import builtins
+    recorded = []
+    real_exec = builtins.exec
+
+    def recording_exec(src, *args):
+        if isinstance(src, str):
+            recorded.append(src)
+        import sys
+        if not args:
+            frame = sys._getframe(1)
+            return real_exec(src, frame.f_globals, frame.f_locals)
+        return real_exec(src, *args)
+    bdict = dict(vars(builtins))
+    bdict["exec"] = recording_exec
+    ns = {"__name__": name, "__package__": module.__package__, "__file__": module.__file__, "__builtins__": bdict,
+          "__spec__": getattr(module, "__spec__", None)}
+    with open(module.__file__) as fh:
+        text = fh.read()
+    import warnings
+    with warnings.catch_warnings():
+        warnings.simplefilter("ignore")
+        real_exec(compile(text, module.__file__, "exec"), ns)
+    _generated_cache[name] = recorded
+    return recorded
+
+
+def find_generated(fn):
+    """(GeneratedInfo, FunctionDef) for a function compiled from an exec()-ed string in a repository module.
+    The match is by bytecode equality with the function object that actually runs."""
+    import sys, textwrap
+    mod = sys.modules.get(fn.__module__)
+    if mod is None or not is_repo_file(getattr(mod, "__file__", "") or ""):
+        raise LookupError(f"generated function {fn.__qualname__} does not belong to a repository module")
+    want = _code_signature(fn.__code__)
+    for k, src in enumerate(generated_sources(mod)):
+        try:
+            tree_src = textwrap.dedent(src)
+            tree = ast.parse(tree_src)
+            top = compile(tree_src, "<string>", "exec")
+        except SyntaxError:
+            continue
+        codes = {}
+        stack = [top]
+        while stack:
+            c = stack.pop()
+            for const in c.co_consts:
+                if isinstance(const, types.CodeType):
+                    codes.setdefault(const.co_name, []).append(const)
+                    stack.append(const)
+        for cand in codes.get(fn.__code__.co_name, []):
+            if _code_signature(cand) == want:
+                gi = GeneratedInfo(f"{mod.__file__}#exec[{k}]:{fn.__code__.co_name}", tree_src)
+                for node in ast.walk(gi.tree):
+                    if isinstance(node, ast.FunctionDef) and node.name == fn.__code__.co_name and node.lineno == cand.co_firstlineno:
+                        return gi, node
+    raise LookupError(f"no exec()-ed source in {mod.__name__} compiles to the running code of {fn.__qualname__}")
+
+
+def is_generated_repo_function(f):
+    import sys
+    if not isinstance(f, types.FunctionType) or f.__code__.co_filename != "<string>":
+        return False
+    mod = sys.modules.get(getattr(f, "__module__", None) or "")
+    return mod is not None and is_repo_file(getattr(mod, "__file__", "") or "")
